@@ -116,6 +116,14 @@ def write_seq_file(kind, letters, tmpdir):
             if not bare:
                 closing["linktype"] = "circle"
             edges.append(closing)
+        # record order: the node records of a .json file need not come in ascending id order ("desc": descending,
+        # "shuf": a fixed permutation) - every record carries its resid, the reader has to bring them into order
+        # (the EDGE records stay in chain order: the adjacency order of the graph is the order of edge insertion)
+        if "desc" in kind.split("-"):
+            nodes = nodes[::-1]
+        elif "shuf" in kind.split("-"):
+            import random as _random
+            _random.Random(letters + kind).shuffle(nodes)
         data = {"directed": False, "multigraph": False, "graph": {}, "nodes": nodes, "edges": edges, "links": edges}
         path = os.path.join(tmpdir, "s.json")
         with open(path, "w") as handle:
@@ -235,8 +243,14 @@ def judge(ctx, case, answers, second=None):
     # tie of strandGraph to the real parsers' output (nodes, edges, adjacency order)
     ctx.correspond("strandGraph", case["before"], canon_model(strand["graph"]), replay)
     ctx.correspond("strandGraph-max_resid", case["max_resid"], strand["graph"]["max_resid"], replay)
-    ctx.correspond("strandGraph-adjacency", {str(k): v for k, v in case["adj"].items()},
-                   {str(k): v for k, v in model_adjacency(strand["graph"]).items()}, replay)
+    if set(str(replay.get("kind", "")).split("-")) & {"desc", "shuf"} and case.get("stage", 1) == 1:
+        # node records out of order: parse_json copies the edges in the iteration order of the graph as read, so the
+        # ADJACENCY order of the strand differs from the chain order the model's strand graph assumes; nodes, edges,
+        # the completion and the specification are compared as for every other input
+        ctx.tally(adjacency_tie_skipped_for_unordered_json=True)
+    else:
+        ctx.correspond("strandGraph-adjacency", {str(k): v for k, v in case["adj"].items()},
+                       {str(k): v for k, v in model_adjacency(strand["graph"]).items()}, replay)
     # model of the code vs the code
     impl = case["impl"]
     model = dict(ok=True, graph=canon_model(comp["graph"])) if comp["ok"] else dict(ok=False)
@@ -319,7 +333,8 @@ def gen_cases(ctx):
     rng = ctx.rng
     kinds = ["fasta", "ig-linear", "ig-circular", "monomers", "json-0", "json-1", "json-7", "json-circular-1",
              "json-circular-4", "json-circular-bare-0", "json-circular-bare-4-r11", "json-7-r5", "json-1-r0",
-             "json-circular-1-r101"]
+             "json-circular-1-r101", "json-desc-0", "json-desc-7-r3", "json-shuf-1", "json-shuf-4-r5",
+             "json-circular-desc-1", "json-circular-shuf-4"]
     cases = []
     # exhaustive small shapes first
     for kind in kinds:
@@ -346,7 +361,7 @@ def gen_cases(ctx):
 # yields 2n residues")
 
 E2E_SOURCES = ["seq", "fasta", "ig-linear", "ig-circular", "json-0", "json-1", "json-7", "json-circular-4",
-               "json-circular-bare-1", "json-4-r5"]
+               "json-circular-bare-1", "json-4-r5", "json-desc-1", "json-shuf-0", "json-circular-shuf-4"]
 
 
 def read_itp_residues(path):
